@@ -4,7 +4,6 @@ import (
 	"bytes"
 	"fmt"
 	"io"
-	"math"
 	"sort"
 	"strings"
 
@@ -341,11 +340,6 @@ func c12Content(ctx *core.Ctx, i int) *Case {
 		c.Shape.Messages = 1 + r.Intn(6)
 	}
 	c.W = gen.RandWorkload(r, c.Shape)
-	for _, m := range c.W.Messages() {
-		if m.LogTime == math.MaxUint64 {
-			m.LogTime-- // 2^64-1 itself is C01/C04's recorded finding
-		}
-	}
 	return c
 }
 
